@@ -327,7 +327,7 @@ fn raw_plan_ok(net: &[Link], t: &Tbl) -> bool {
             if !(a.cx + sp <= b.ax || b.ax == b.cx) { return false; }
             if !(a.cx <= b.cx) { return false; }
         }
-        for m in conf(net, l) { if m >= t.len() { return false; } for a in &t[l] { for b in &t[m] { if !disjoint(a, b) { return false; } } } }
+        for m in conf(net, l) { if m >= t.len() { continue; } for a in &t[l] { for b in &t[m] { if !disjoint(a, b) { return false; } } } }
     }
     true
 }
